@@ -33,11 +33,17 @@ RULE = ("exhaustive small shapes: clean-up of every ordered pair of faces "
         "MeshStripifier in both output modes, TriangleSoupMeshBuilder (per-corner and per-face values, two call "
         "orders), PointCloudBuilder (three ways of setting values, with and without deduplication). Per case: the "
         "clauses of C14 are evaluated by the Lean checkers on (input, IMPLEMENTATION's result), the model's result "
-        "must equal the implementation's canonical dump, idempotence is observed by running the real operation twice")
+        "must equal the implementation's canonical dump, idempotence is observed by running the real operation twice; "
+        "a quarter of the random cases runs under ASan/UBSan")
 THEOREM_BACKED = ("dedupValues_preserves / _no_duplicates / _idempotent, dedupPointIds_preserves / _no_duplicates / "
                   "_idempotent, dedup_no_identical_points, cleanup_describes / _describes_exact / _survivors_spec / "
                   "_valid / _nothing_unused (all 16 option subsets), strips_describe_unconditional (both modes), "
-                  "buildMesh_describes, buildPointCloud_describes — for every valid input of the model")
+                  "buildMesh_describes, buildPointCloud_describes — for every valid input of the model; "
+                  "oracle_accepts_dedupValues / _dedupPointIds / _dedupBoth / _buildMesh / _buildPointCloud: the clauses "
+                  "this check demands of the implementation's result are implied by those theorems")
+TRUSTED_EXTRA = ["harness/ops_meshtools.cc (calls of the real utilities, canonical dump)",
+                 "lean/DracoModel/C14Verify.lean (executable statement of the clauses evaluated on the implementation's "
+                 "result; tied to the theorems for the deduplications and builders, not for clean-up / strips)"]
 CORRESPONDENCE_ONLY = ("that the model equals the real classes (hash containers, in-place buffer compaction, template "
                        "dispatch over data types) is tied by the random cases, not proved")
 EXPLANATION = ("full Lean proofs on the executable model of every clause for the attribute types the deduplication "
